@@ -26,10 +26,9 @@ func (msg *MsgCreateAccount) Type() string {
 }
 
 func (msg *MsgCreateAccount) GetSigners() []sdk.AccAddress {
-	creator, err := sdk.AccAddressFromBech32(msg.Creator)
-	if err != nil {
-		panic(err)
-	}
+	// a malformed address gives an empty signer instead of a panic (as in the messages of cosmos-sdk): ValidateBasic
+	// reports it, and x/authz asks a wrapped message for its signers before anything validated it
+	creator, _ := sdk.AccAddressFromBech32(msg.Creator)
 	return []sdk.AccAddress{creator}
 }
 
